@@ -14,7 +14,7 @@ type Profile struct {
 	Errors   bool // try/catch/finally, throw, runtime errors, defer (C09)
 	IncDec   bool // x++ / x += e statements (C14)
 	Cross    bool // by-construction scope patterns: every binder form x every block form on a fresh name, own-name rebinding, closure factories called several times (C04)
-	HostChan bool // the probe environment has gch(v) (a buffered channel holding v): `x = <-gch(v)` binder forms
+	HostChan bool // the environment is prog.NewHost (has gch(v), a buffered channel holding v, and the callback-taking gcall0 / geach): `x = <-gch(v)` binder forms, script callbacks handed to Go
 	MaxDepth int
 	MaxStmts int // statements per block
 }
@@ -172,6 +172,9 @@ func (g *G) stmt(c *gctx) []*N {
 		add(b2i(P.Scopes, 7, 5), func() []*N { return g.funcDef(c) })
 		add(b2i(P.Scopes, 3, 0), func() []*N { return g.moduleStmt(c) })
 		add(b2i(P.Scopes || P.Control, 2, 1), func() []*N { return g.recursion(c) })
+		if P.Control {
+			add(4, func() []*N { return g.strayBreak(c) })
+		}
 		if P.Cross {
 			add(7, func() []*N { return g.scopeCross(c) })
 			add(2, func() []*N { return g.selfName(c) })
@@ -196,6 +199,9 @@ func (g *G) stmt(c *gctx) []*N {
 		add(4, func() []*N { return []*N{g.guarded(c, &N{K: "throw", Ns: []*N{g.thrown(c)}})} })
 		add(3, func() []*N { return []*N{g.guarded(c, g.runtimeErr(c))} })
 		add(7, func() []*N { return []*N{g.deferStmt(c)} })
+		if !deep && P.HostChan {
+			add(4, func() []*N { return []*N{g.callbackStmt(c)} })
+		}
 	}
 	total := 0
 	for _, o := range opts {
@@ -381,6 +387,35 @@ func (g *G) callExpr(c *gctx, f fnInfo, depth int) *N {
 		args[i] = g.iexpr(c, depth)
 	}
 	g.feat("call")
+	if f.vararg && g.prof.Errors && g.chance(35) {
+		// spread call of a variadic function: f(fixed..., list...); the spread operand may raise
+		fixed := args
+		if len(fixed) > f.arity-1 {
+			fixed = fixed[:f.arity-1]
+		}
+		for len(fixed) < f.arity-1 {
+			fixed = append(fixed, g.iexpr(c, depth))
+		}
+		var sp *N
+		switch g.n(0, 5, "spreadoperand") {
+		case 0:
+			g.feat("spread_operand_raises")
+			sp = P1(g.id(), Id("zz")) // undefined name
+		case 1:
+			g.feat("spread_operand_raises")
+			sp = &N{K: "list", Ns: []*N{g.val(), {K: "pfail", I: g.id()}}}
+		case 2:
+			g.feat("spread_operand_raises")
+			sp = &N{K: "idx", Ns: []*N{{K: "list", Ns: []*N{{K: "list", Ns: []*N{g.val()}}}}, Int(int64(g.n(1, 2, "oob")))}}
+		default:
+			sp = &N{K: "list"}
+			for i := g.n(0, 2, "spreadlen"); i > 0; i-- {
+				sp.Ns = append(sp.Ns, g.iexpr(c, depth))
+			}
+		}
+		g.feat("call_spread_variadic")
+		return &N{K: "call", S: f.name, Ns: append(append([]*N{}, fixed...), sp), B: true}
+	}
 	if g.chance(20) {
 		return &N{K: "acall", Ns: append([]*N{Id(f.name)}, args...)}
 	}
@@ -564,7 +599,25 @@ func (g *G) loopStmt(c *gctx) []*N {
 			postN = &N{K: "opas", S: ctr, Ps: []string{"+"}, Ns: []*N{P1(g.id(), Int(1))}} // observable post expression
 		}
 		body := g.block(k, nb)
-		out = []*N{{K: "cfor", Ns: []*N{{K: "let", Ps: []string{ctr}, Ns: []*N{Int(0)}}, Bin("<", Id(ctr), Int(bound)), postN}, Ss: [][]*N{body}}}
+		init := &N{K: "let", Ps: []string{ctr}, Ns: []*N{Int(0)}}
+		cnd := Bin("<", Id(ctr), Int(bound))
+		none := &N{K: "none"}
+		switch g.n(0, 5, "cforhdr") {
+		case 0:
+			// no condition: left by break only; continue must still run the post expression
+			g.feat("loop_cfor_without_condition")
+			body = append([]*N{{K: "if", Ns: []*N{Bin(">=", Id(ctr), Int(bound))}, Ss: [][]*N{{{K: "break"}}}}}, body...)
+			out = []*N{{K: "cfor", Ns: []*N{init, none, postN}, Ss: [][]*N{body}}}
+		case 1:
+			g.feat("loop_cfor_without_init")
+			out = []*N{{K: "var", Ps: []string{ctr}, Ns: []*N{Int(0)}}, {K: "cfor", Ns: []*N{none, cnd, postN}, Ss: [][]*N{body}}}
+		case 2:
+			g.feat("loop_cfor_without_post")
+			body = append([]*N{{K: "let", Ps: []string{ctr}, Ns: []*N{Bin("+", Id(ctr), Int(1))}}}, body...)
+			out = []*N{{K: "cfor", Ns: []*N{init, cnd, none}, Ss: [][]*N{body}}}
+		default:
+			out = []*N{{K: "cfor", Ns: []*N{init, cnd, postN}, Ss: [][]*N{body}}}
+		}
 		g.feat("loop_cfor")
 	case 3, 4: // for v in list
 		v := g.name()
@@ -577,6 +630,17 @@ func (g *G) loopStmt(c *gctx) []*N {
 		out = []*N{{K: "forin", Ps: []string{v}, Ns: []*N{l}, Ss: [][]*N{body}}}
 		g.feat("loop_forin_list")
 	default: // for k, v in map
+		if g.prof.Control && g.chance(25) {
+			// keys of different dynamic types that print alike: every entry is visited exactly once
+			g.feat("loop_forin_map_keys_printing_alike")
+			alike := [][2]*N{{Int(1), Str("1")}, {{K: "true"}, Str("true")}, {Int(0), Str("0")}, {Int(-1), Str("-1")}}
+			mp := &N{K: "map"}
+			for _, i := range rapid.SliceOfNDistinct(rapid.IntRange(0, len(alike)-1), 1, 3, func(i int) int { return i }).Draw(g.t, "alikepairs") {
+				mp.Ns = append(mp.Ns, alike[i][0], g.val(), alike[i][1], g.val())
+			}
+			body := []*N{{K: "expr", Ns: []*N{P1(-g.id(), &N{K: "list", Ns: []*N{Id("mk"), Id("mv")}})}}}
+			return []*N{{K: "forin", Ps: []string{"mk", "mv"}, Ns: []*N{mp}, Ss: [][]*N{body}}}
+		}
 		n := g.n(0, 3, "maplen")
 		mp := &N{K: "map"}
 		for i := 0; i < n; i++ {
@@ -980,4 +1044,72 @@ func (g *G) closureFactory(c *gctx) []*N {
 	}
 	g.feat("closure_factory")
 	return out
+}
+
+// strayBreak: a function whose body holds a break/continue outside any loop of its own is called
+// from inside a loop of the caller: the stray statement is an error of the callee and must
+// never act on the caller's loop.
+func (g *G) strayBreak(c *gctx) []*N {
+	g.nextFn++
+	name := fmt.Sprintf("sb%d", g.nextFn)
+	stray := &N{K: rapid.SampledFrom([]string{"break", "cont"}).Draw(g.t, "straykind")}
+	var inner *N
+	switch g.n(0, 3, "straynest") {
+	case 0:
+		inner = stray
+	case 1:
+		inner = &N{K: "if", Ns: []*N{Bin("==", Bin("%", Id("n"), Int(2)), Int(int64(g.n(0, 1, "par"))))}, Ss: [][]*N{{stray}}}
+	case 2:
+		inner = &N{K: "switch", Ns: []*N{Id("n"), {K: "case", Ns: []*N{Int(int64(g.n(0, 2, "sc")))}, Ss: [][]*N{{stray}}}}}
+	default:
+		inner = &N{K: "try", Ss: [][]*N{{{K: "throw", Ns: []*N{Str("E")}}}, {stray}}}
+	}
+	body := []*N{{K: "expr", Ns: []*N{P1(g.id(), Id("n"))}}, inner, {K: "expr", Ns: []*N{P(g.id())}}, {K: "ret", Ns: []*N{Bin("+", Id("n"), Int(50))}}}
+	def := &N{K: "expr", Ns: []*N{{K: "fn", S: name, Ps: []string{"n"}, Ss: [][]*N{body}}}}
+	v := fmt.Sprintf("sv%d", g.nextFn)
+	call := &N{K: "expr", Ns: []*N{P1(g.id(), &N{K: "call", S: name, Ns: []*N{Id(v)}})}}
+	var loopBody []*N
+	loopBody = append(loopBody, &N{K: "expr", Ns: []*N{P1(g.id(), Id(v))}})
+	if g.chance(60) {
+		loopBody = append(loopBody, &N{K: "try", S: "e", Ss: [][]*N{{call}, {{K: "expr", Ns: []*N{P1(g.id(), Str("caught"))}}}}})
+	} else {
+		loopBody = append(loopBody, call)
+	}
+	loopBody = append(loopBody, &N{K: "expr", Ns: []*N{P(g.id())}})
+	g.feat("stray_break_or_continue_in_callee")
+	var loop *N
+	switch g.n(0, 2, "strayloop") {
+	case 0:
+		loop = &N{K: "forin", Ps: []string{v}, Ns: []*N{{K: "list", Ns: []*N{Int(0), Int(1), Int(2)}}}, Ss: [][]*N{loopBody}}
+	case 1:
+		loop = &N{K: "cfor", Ns: []*N{{K: "let", Ps: []string{v}, Ns: []*N{Int(0)}}, Bin("<", Id(v), Int(3)), {K: "inc", S: v, I: 1}}, Ss: [][]*N{loopBody}}
+	default:
+		pre := &N{K: "let", Ps: []string{v}, Ns: []*N{Bin("+", Id(v), Int(1))}}
+		return []*N{def, {K: "var", Ps: []string{v}, Ns: []*N{Int(-1)}}, {K: "loop", Ns: []*N{Bin("<", Id(v), Int(2))}, Ss: [][]*N{append([]*N{pre}, loopBody...)}}, {K: "expr", Ns: []*N{P(g.id())}}}
+	}
+	return []*N{def, loop, {K: "expr", Ns: []*N{P(g.id())}}}
+}
+
+// callbackStmt hands a script function literal to a Go function whose parameter is a func type
+// without results; the literal's body is an ordinary block (it may raise, defer, try).
+func (g *G) callbackStmt(c *gctx) *N {
+	g.nextFn++
+	fc := c.sub()
+	fc.inLoop, fc.canRet, fc.ret, fc.fnIdx, fc.flat = false, true, "none", g.nextFn, false
+	fc.anc = append(fc.anc, g.nextFn)
+	body := g.block(fc, g.n(1, 3, "cbn"))
+	body = append(body, &N{K: "ret"})
+	g.feat("script_callback_passed_to_go")
+	var call *N
+	if g.chance(50) {
+		call = &N{K: "call", S: "gcall0", Ns: []*N{{K: "fn", Ss: [][]*N{body}}}}
+	} else {
+		body = append([]*N{{K: "expr", Ns: []*N{P1(g.id(), Id("cbx"))}}}, body...)
+		items := &N{K: "list"}
+		for i := g.n(1, 3, "cbitems"); i > 0; i-- {
+			items.Ns = append(items.Ns, g.val())
+		}
+		call = &N{K: "call", S: "geach", Ns: []*N{items, {K: "fn", Ps: []string{"cbx"}, Ss: [][]*N{body}}}}
+	}
+	return &N{K: "expr", Ns: []*N{P1(g.id(), call)}}
 }
